@@ -108,7 +108,11 @@ func (c *LRUCache) Put(key uint64, bm *roaring.Bitmap) {
 	if elem, ok := c.entries[key]; ok {
 		c.lruList.MoveToFront(elem)
 		item := elem.Value.(*lruCacheItem)
+		newSize := bm.GetSizeInBytes()
+		c.curSize = c.curSize - item.size + newSize
+		item.size = newSize
 		item.bm = bm
+		c.evict()
 		return
 	}
 
@@ -122,6 +126,11 @@ func (c *LRUCache) Put(key uint64, bm *roaring.Bitmap) {
 
 	c.curSize += item.size + uint64(lruCacheItemSize) + uint64(listElementSize)
 
+	c.evict()
+}
+
+// evict removes least recently used entries until the accounted size fits the maximum.
+func (c *LRUCache) evict() {
 	for c.curSize > c.maxSize && c.lruList.Len() > 0 {
 		item := c.lruList.Remove(c.lruList.Back()).(*lruCacheItem)
 		c.curSize -= item.size + uint64(lruCacheItemSize) + uint64(listElementSize)
